@@ -232,3 +232,21 @@ PROPERTIES["C16"] = {
         {"test": "TestC16Unit", "quick": 30000, "thorough": 1000000},
     ],
 }
+
+PROPERTIES["C07"] = {
+    "level": "exploration",
+    "rule": "rapid draws packets NOT addressed to the orbiter account (receivers: users, module accounts, blocked accounts, garbage, other "
+            "prefix over the orbiter bytes, truncated/padded orbiter address; data: valid ICS-20 with a COMPLETE valid orbiter payload as memo, "
+            "other memos, sender-source tokens, bad amounts/denoms, arbitrary bytes, non-object JSON; valid channel/port ids) after a prefix "
+            "history that puts orbiter into some pause/parameter/statistics state. Differential on two sibling branches: the application's "
+            "stack vs a reference stack built by the harness WITHOUT the orbiter middleware (blockibc over the ICS-20 module): ack bytes, the "
+            "full event list and the digest of EVERY store must be equal, and the orbiter store and the orbiter/dust-collector balances "
+            "untouched. Same differential for OnAcknowledgementPacket (success and error acks) and OnTimeoutPacket (refund paths). "
+            "SendPacket/WriteAcknowledgement/GetAppVersion must reach a recording ICS-4 fake with identical arguments and results. "
+            "Non-trivial = a valid ICS-20 packet or one carrying an orbiter memo; distinct by (callback, data).",
+    "assumptions": COMMON_ASSUMPTIONS + ["destination channels have ibc-go's generated form channel-N (with an ill-formed one the middleware answers itself: C14 territory)"],
+    "tests": [
+        {"test": "TestC07Differential", "quick": 5000, "thorough": 600000},
+        {"test": "TestC07SendPath", "quick": 1000, "thorough": 50000},
+    ],
+}
